@@ -442,6 +442,10 @@ void bn_read_bin(bn_t a, const uint8_t *bin, size_t len) {
 	int digs = (len % d == 0 ? len / d : len / d + 1);
 
 	bn_grow(a, digs);
+	if (a->alloc < (size_t)digs) {
+		/* bn_grow() threw and there was no handler to jump to. */
+		return;
+	}
 	bn_zero(a);
 	a->used = digs;
 
